@@ -1,5 +1,5 @@
 (* C03 — replay protection.  Property theorems only; proofs live in SeqProofs.v. *)
-From Verif Require Import Prelude Gen Seq SeqProofs.
+From Verif Require Import Prelude Gen Seq SeqProofs Translated.
 
 (* Every finite delivery history (any order, multiplicity, subset) of sequence numbers:
    the accepted ones are pairwise distinct — also from a stale bitmap left by a key rollover. *)
@@ -50,3 +50,25 @@ Example C03_nonvacuous :
   accepted check sh_init [1;2;3;2;70;5;6;5;1] = [1;2;3;70;6] /\
   (let s := final check sh_init [1;5;70] in 8 <> 0 /\ ~ In 8 (accepted check sh_init [1;5;70]) /\ hi s <= 8 + 64).
 Proof. vm_compute. split; [reflexivity|]. split; [discriminate|]. split; [|discriminate]. intros [H|[H|[H|[]]]]; discriminate. Qed.
+
+(* ---------- the translated source (Translated.v) ----------
+   Gen.go_SequenceHandler_Check / Gen.go_TimeSequenceHandler_Check are TRANSLATED from
+   state/session_encryption.go and state/session_signing.go on every run (go/ast + go/types, uint32 /
+   uint64 wrap written out).  They equal the model functions above for every machine-integer
+   input, so the theorems hold of the code as written now: *)
+Theorem C03_source_check_is_model : forall b h q, h < 2 ^ 32 -> q < 2 ^ 32 ->
+  let '(b', h', c) := Gen.go_SequenceHandler_Check b h q in
+  let '(s', ok) := check {| hi := h; bm := b |} q in
+  b' = bm s' /\ h' = hi s' /\ code_ok c = ok.
+Proof. exact go_check_is_model. Qed.
+Print Assumptions C03_source_check_is_model.
+
+Theorem C03_source_at_most_once : forall b0 l,
+  Forall (fun q => q < 2 ^ 32) l -> NoDup (go_accepted b0 0 l).
+Proof. exact go_at_most_once. Qed.
+Print Assumptions C03_source_at_most_once.
+
+Theorem C03_source_timecheck_is_model : forall latest t,
+  let '(l', c) := Gen.go_TimeSequenceHandler_Check latest t in (l', code_ok c) = tcheck latest t.
+Proof. exact go_tcheck_is_model. Qed.
+Print Assumptions C03_source_timecheck_is_model.
